@@ -19,6 +19,7 @@ import Acme.Driver.Conv
 import Acme.Driver.SaveSel
 import Acme.Driver.Import
 import Acme.Driver.Save
+import Acme.Driver.Attr
 
 open Acme.Driver
 
@@ -45,6 +46,7 @@ def stepLine (s : DState) (line : String) : DState × String :=
   | "ss" :: rest => (s, SaveSelD.handle rest)
   | "imp" :: rest => (s, ImportD.handle rest)
   | "sv" :: rest => (s, SaveD.handle rest)
+  | "at" :: rest => (s, AttrD.handle rest)
   | _ => (s, "bad-op")
 
 partial def loop (hin : IO.FS.Stream) (hout : IO.FS.Stream) (s : DState) : IO Unit := do
